@@ -177,6 +177,35 @@ func isStaticFreeVar(fv *ssa.FreeVar) bool {
 	return true
 }
 
+type pendingBackEdge struct {
+	f    *Frame
+	head *ssa.BasicBlock
+	st   *State
+}
+
+// flushBackEdges checks the loop invariants on the join of all back-edge states of each loop.
+func (fr *FuncRun) flushBackEdges() {
+	pend := fr.pendingBack
+	fr.pendingBack = nil
+	type key struct {
+		f    *Frame
+		head *ssa.BasicBlock
+	}
+	groups := map[key][]*State{}
+	var order []key
+	for _, p := range pend {
+		k := key{p.f, p.head}
+		if _, ok := groups[k]; !ok {
+			order = append(order, k)
+		}
+		groups[k] = append(groups[k], p.st)
+	}
+	for _, k := range order {
+		merged := fr.merge(groups[k])
+		fr.checkInvariants(k.f, k.head, merged, "inv-preserved")
+	}
+}
+
 // execFunction runs the body of f.fn from state st; returns the merged return state and results.
 func (fr *FuncRun) execFunction(f *Frame, st *State) (*State, []Val) {
 	fn := f.fn
@@ -322,10 +351,15 @@ func (fr *FuncRun) pushEdge(f *Frame, incoming map[*ssa.BasicBlock][]edgeIn, fro
 		}
 	}
 	if isBackEdge(from, to) {
-		// back edge: invariants must be preserved
-		fr.checkInvariants(f, to, ns, "inv-preserved")
-		if fr.scout > 0 && fr.scoutingHead == to {
-			fr.backStates = append(fr.backStates, ns)
+		// back edge: invariants must be preserved (checked once per loop over all back edges, see flushBackEdges)
+		if fr.scout > 0 {
+			if fr.scoutingHead == to {
+				fr.backStates = append(fr.backStates, ns)
+			}
+			return
+		}
+		if len(fr.invariantsOf(f, to)) > 0 {
+			fr.pendingBack = append(fr.pendingBack, pendingBackEdge{f: f, head: to, st: ns})
 		}
 		return
 	}
@@ -406,9 +440,11 @@ func (fr *FuncRun) enterLoop(f *Frame, head *ssa.BasicBlock, body map[*ssa.Basic
 	fr.checkInvariants(f, head, cur, "inv-entry")
 	// 2. pass A: write set; iterate the slice-freshness flags of loop-carried cells to a fixpoint
 	var ws *WriteSet
+	var lastBack []*State
 	for iter := 0; iter < 5; iter++ {
 		var back []*State
 		ws, back = fr.scoutLoop(f, head, body, cur, order, bodies)
+		lastBack = back
 		changed := false
 		for c := range ws.cells {
 			v, ok := cur.cells[c]
@@ -438,6 +474,27 @@ func (fr *FuncRun) enterLoop(f *Frame, head *ssa.BasicBlock, body map[*ssa.Basic
 	for c := range ws.cells {
 		fr.noteCellWrite(c)
 	}
+	// only what can differ when control comes back to the head needs to be forgotten: writes on paths
+	// that leave the loop (break, return) do not reach the next iteration
+	carried := newWriteSet()
+	for _, bs := range lastBack {
+		for h := range ws.heaps {
+			if fr.heapCur(bs, h) != fr.heapCur(cur, h) {
+				carried.heaps[h] = true
+				if ws.oldHeaps[h] {
+					carried.oldHeaps[h] = true
+				}
+			}
+		}
+		for c := range ws.cells {
+			bv, ok1 := bs.cells[c]
+			cv, ok2 := cur.cells[c]
+			if ok1 != ok2 || bv.T != cv.T {
+				carried.cells[c] = true
+			}
+		}
+	}
+	ws = carried
 	// 3. havoc the write set
 	pre := cur.clone()
 	topAtEntry := fr.allocTop
